@@ -13,6 +13,9 @@ CHECKS = {
  "C15": dict(technique="TLA+ spec EucOps (relational contracts over exact rings: a=qb+r with norm decrease, exact rounding, gcd/Bezout/lcm, units, normalisation); TLC shows the contracts satisfiable and answer-determining on complete small domains; TLC-enumerated operand domains + random operands to 10^700 run through the library and every answer validated by Trace_EucOps",
              text="Every Euclidean operation of 20 implementation types is recorded with its answer and TLC evaluates the mathematical contract on it using exact limb arithmetic; the contracts themselves are model-checked against a reference implementation and for uniqueness of the accepted answer on complete small domains.",
              note="Trusted: TLC, BigNum/Rings libraries (model-checked), cofactors for divisibility computed by the library's own division and re-multiplied by TLC.", design="§3 C15"),
+ "C13": dict(technique="TLA+ spec MatAlg (dense meaning of every container operation + Trans state machine over dense products); TLC checks the matrix operators against algebraic laws and all short Trans histories; TLC-enumerated small matrices and random operands with explicit zeros / zero dimensions run through the library, every result validated by Trace_MatAlg",
+             text="Each container call of the real SpMat / SpVec / Mat / Trans is recorded with operands and result and TLC recomputes the mathematical result from the definition (Matrices.tla) and compares entrywise; Trans is validated as a state machine whose abstract state is the pair of dense products.",
+             note="Trusted: TLC, Matrices.tla/Rings.tla (model-checked against laws), the harness' dense projection through iter().", design="§3 C13"),
 }
 PENDING = "not yet bound to the specification in this round (see DESIGN.md section 3 for the planned spec and binding)"
 m = {
